@@ -26,3 +26,30 @@ def run_props(repo, props, out, work=None):
         if pid not in res:  # the process died before deciding it
             res[pid] = (2, "no result: " + (pr.stdout[-300:] + pr.stderr[-300:]))
     return res
+
+
+def baseline_failures(props):
+    """Properties whose check already fails on the UNCHANGED /repo with the binary in use
+    (a development binary ahead of /repo, e.g. a rule for a finding that is not repaired
+    yet). A variant must not be counted as caught by such a check: its exit code says
+    nothing about the variant. Cached per (binary mtime, /repo HEAD)."""
+    import json, tempfile, shutil, hashlib
+    binp = os.environ.get("EVCHECK_BIN", os.path.join(ROOT, "bin", "evcheck"))
+    head = subprocess.run("git -C /repo rev-parse HEAD", shell=True, capture_output=True, text=True).stdout.strip()
+    key = hashlib.sha1(("%s|%s|%s" % (binp, os.path.getmtime(binp), head)).encode()).hexdigest()[:16]
+    cache = os.path.join(ROOT, ".work", "baseline-%s.json" % key)
+    if os.path.exists(cache):
+        failing = json.load(open(cache))
+    else:
+        d = tempfile.mkdtemp(prefix="evbase.")
+        out = tempfile.mkdtemp(prefix="evbaseout.")
+        try:
+            subprocess.check_call("git -C /repo ls-files -z | (cd /repo && xargs -0 cp --parents -t %s)" % d, shell=True)
+            allp = ["C%02d" % i for i in range(1, 21)]
+            res = run_props(d, allp, out, work=os.path.join(out, "work"))
+            failing = sorted(pid for pid, (rc, _) in res.items() if rc != 0)
+        finally:
+            shutil.rmtree(d, ignore_errors=True); shutil.rmtree(out, ignore_errors=True)
+        os.makedirs(os.path.dirname(cache), exist_ok=True)
+        json.dump(failing, open(cache, "w"))
+    return [pid for pid in props if pid in failing]
